@@ -47,6 +47,12 @@ class Gen:
         self.paths = {}     # session -> relative paths it has set
         self.ping = 0
         self.subpre = {}    # session -> its per-group shared prefix
+        # The order in which the subscribers of one node are notified is the iteration order of a pooled immutable table
+        # (util/ImmutableHashtablePool.h), which the model does not have; it is observable only when a max-items flush of
+        # one subscriber pushes another subscriber's half-built update.  So: either one subscriber (which may change its
+        # max-items), or several subscribers that all keep the default of 50 (never reached by these histories).
+        self.single = rng.random() < 0.5
+        self.subscriber = None
 
     def attach(self):
         k = self.n
@@ -161,13 +167,16 @@ class Gen:
             return self.set_cmd(k, sep)
         if r < 0.30:
             return self.rem_cmd(k, sep)
-        if r < 0.42:
+        if self.single and self.subscriber is None and r < 0.53:
+            self.subscriber = k
+        may_sub = (not self.single) or (k == self.subscriber)
+        if r < 0.42 and may_sub:
             return self.sub_cmd(k, sep)
-        if r < 0.47:
+        if r < 0.47 and may_sub:
             return self.unsub_cmd(k, sep)
-        if r < 0.51:
+        if r < 0.51 and may_sub and self.single:
             return j("m", str(rng.choice(MAXES)))
-        if r < 0.53:
+        if r < 0.53 and may_sub and self.single:
             return ("um:%d" % k) if sep == ":" else "um"
         if r < 0.65:
             return j("g", self.keys_arg(0.3))
